@@ -388,6 +388,14 @@ func (g *Gen) next0() *Op {
 			return &Op{Kind: "export"}
 		}
 	}
+	// -k3 > 0 only (known finding K3 inside the correspondence, DESIGN 12.10): the module service gets its
+	// definition early, so that calls aimed at it reach the module-service branch of the handler
+	if g.k3 > 0 {
+		if _, ok := s.Defs[modSvc]; !ok && g.chance(0.2) {
+			g.defCtr++
+			return &Op{Kind: "define", Svc: 5, Content: g.defCtr, Owner: pick(rng, ownerAtoms)}
+		}
+	}
 	// governance parameter change: about one op in twenty of a history that has them (one in sixty overall)
 	if g.paramHist && g.prng.Intn(20) == 0 {
 		return g.setParams()
@@ -464,6 +472,10 @@ func (g *Gen) next0() *Op {
 					o.Svc = a.atomOfSvc(bound[rng.Intn(len(bound))])
 				}
 			}
+		}
+		if g.k3 > 0 && g.chance(0.05) {
+			// the module's provider address as an ordinary provider of another service: it gets an owner
+			o.Prov = modProvAtom
 		}
 		if ow, ok := s.Owners[string(a.addr(o.Prov))]; ok && g.chance(0.85) {
 			o.Owner = a.atomOfAddr([]byte(ow))
